@@ -925,7 +925,9 @@ def compile_comprehension(compiler, expr, root, parts, final):
                     if is_for:
                         if body:
                             bd = compiler._compile_branch(body)
-                            return bd + bd.expr_as_stmt()
+                            bd += bd.expr_as_stmt()
+                            if bd.stmts:
+                                return bd
                         return Result(stmts=[asty.Pass(expr)])
                     if ends_with_unpack:
                         ends_with_unpack = False
